@@ -675,3 +675,163 @@ func Panics(fn *ssa.Function) []*ssa.Panic {
 	})
 	return out
 }
+
+// ---------- structural expression keys ----------
+
+// ExprKey renders a canonical, structural description of how v is computed
+// (operators, constants, parameters, field names), so that two separately
+// computed but identical conditions compare equal. Loop-carried phis are
+// rendered by their source variable name.
+func ExprKey(v ssa.Value) string {
+	return exprKey(v, 0)
+}
+
+func exprKey(v ssa.Value, depth int) string {
+	if depth > 12 {
+		return "…"
+	}
+	d := depth + 1
+	switch x := v.(type) {
+	case nil:
+		return "nil"
+	case *ssa.Const:
+		if x.Value == nil {
+			return "nil"
+		}
+		return x.Value.ExactString()
+	case *ssa.Parameter:
+		return x.Name()
+	case *ssa.FreeVar:
+		return "fv:" + x.Name()
+	case *ssa.Global:
+		return "g:" + x.Name()
+	case *ssa.BinOp:
+		return "(" + exprKey(x.X, d) + " " + x.Op.String() + " " + exprKey(x.Y, d) + ")"
+	case *ssa.UnOp:
+		if x.Op == token.MUL {
+			return exprKey(x.X, d)
+		}
+		return x.Op.String() + exprKey(x.X, d)
+	case *ssa.FieldAddr:
+		_, f, _ := FieldAddr(x)
+		return exprKey(x.X, d) + "." + f
+	case *ssa.Field:
+		st, _ := x.X.Type().Underlying().(*types.Struct)
+		if st != nil {
+			return exprKey(x.X, d) + "." + st.Field(x.Field).Name()
+		}
+	case *ssa.IndexAddr:
+		return exprKey(x.X, d) + "[" + exprKey(x.Index, d) + "]"
+	case *ssa.Index:
+		return exprKey(x.X, d) + "[" + exprKey(x.Index, d) + "]"
+	case *ssa.Lookup:
+		return exprKey(x.X, d) + "[" + exprKey(x.Index, d) + "]"
+	case *ssa.Slice:
+		lo, hi := "", ""
+		if x.Low != nil {
+			lo = exprKey(x.Low, d)
+		}
+		if x.High != nil {
+			hi = exprKey(x.High, d)
+		}
+		return exprKey(x.X, d) + "[" + lo + ":" + hi + "]"
+	case *ssa.Extract:
+		return exprKey(x.Tuple, d) + "#" + itoa(x.Index)
+	case *ssa.ChangeType:
+		return exprKey(x.X, d)
+	case *ssa.Convert:
+		return exprKey(x.X, d)
+	case *ssa.MakeInterface:
+		return exprKey(x.X, d)
+	case *ssa.TypeAssert:
+		return exprKey(x.X, d) + ".(" + x.AssertedType.String() + ")"
+	case *ssa.Phi:
+		if x.Comment != "" {
+			return "φ" + x.Comment
+		}
+		return "φ" + x.Name()
+	case *ssa.Alloc:
+		if x.Comment != "" {
+			return "&" + x.Comment
+		}
+		return "&" + x.Name()
+	case *ssa.Call:
+		var args []string
+		for _, a := range x.Call.Args {
+			args = append(args, exprKey(a, d))
+		}
+		name := ""
+		if b, ok := x.Call.Value.(*ssa.Builtin); ok {
+			name = b.Name()
+		} else if f := x.Call.StaticCallee(); f != nil {
+			name = f.Name()
+		} else if x.Call.IsInvoke() {
+			name = exprKey(x.Call.Value, d) + "." + x.Call.Method.Name()
+		} else {
+			name = exprKey(x.Call.Value, d)
+		}
+		return name + "(" + strings.Join(args, ",") + ")"
+	}
+	return v.Name()
+}
+
+func itoa(i int) string {
+	if i == 0 {
+		return "0"
+	}
+	neg := i < 0
+	if neg {
+		i = -i
+	}
+	s := ""
+	for i > 0 {
+		s = string(rune('0'+i%10)) + s
+		i /= 10
+	}
+	if neg {
+		s = "-" + s
+	}
+	return s
+}
+
+// Cond is a branch condition with the polarity that holds.
+type Cond struct {
+	Key  string
+	Want bool
+	V    ssa.Value
+}
+
+// DominatingConds returns the branch conditions (as structural keys with
+// polarity) whose edge dominates block b.
+func DominatingConds(b *ssa.BasicBlock) []Cond {
+	fn := b.Parent()
+	var out []Cond
+	for _, blk := range fn.Blocks {
+		if len(blk.Instrs) == 0 {
+			continue
+		}
+		iff, ok := blk.Instrs[len(blk.Instrs)-1].(*ssa.If)
+		if !ok {
+			continue
+		}
+		for i, want := range []bool{true, false} {
+			if blk.Succs[0] == blk.Succs[1] {
+				continue
+			}
+			if EdgeDominates(blk, blk.Succs[i], b) {
+				c := iff.Cond
+				w := want
+				for {
+					if u, isU := c.(*ssa.UnOp); isU && u.Op == token.NOT {
+						c = u.X
+						w = !w
+						continue
+					}
+					break
+				}
+				out = append(out, Cond{Key: ExprKey(c), Want: w, V: c})
+			}
+		}
+	}
+	return out
+}
